@@ -213,6 +213,26 @@ def check(run: Run) -> None:
                             ok_g = isinstance(exc, ast.Name) and exc.id == "ValueError"
             builds = [c for c in calls_in(f) if isinstance(c.func, ast.Attribute) and c.func.attr == "clone_with_new_ast"]
             dom = bool(builds) and bool(raises) and all(fo.cfg.dominates(fo.cfg.node_of(_owner_if(r)), fo.cfg.node_of(b)) for r in raises for b in builds if _owner_if(r) is not None)
+            if not (ok_g and dom) and builds:
+                # the test may stand in a guard helper (`_require_boolean(rtn_type, ..)`: if rtn_type != bool: raise ValueError):
+                # what counts is that "followed type == bool" is a fact where the stream is built, and that the refusal is a ValueError
+                from ..lib import unit as _unit
+
+                def _is_bool_fact(b_):
+                    for a, pol in Facts(fo, b_).atoms:
+                        if isinstance(a, ast.Compare) and len(a.ops) == 1 and fo.cfg.has_node(b_):
+                            try:
+                                l_, r_ = strip_sites(fo.term_of(a.left, fo.cfg.node_of(b_))), strip_sites(fo.term_of(a.comparators[0], fo.cfg.node_of(b_)))
+                            except AnalysisError:
+                                continue
+                            if {l_, r_} == {rtn, ("global", "builtins.bool")} and ((isinstance(a.ops[0], (ast.Eq, ast.Is)) and pol) or (isinstance(a.ops[0], (ast.NotEq, ast.IsNot)) and not pol)):
+                                return True
+                    return False
+
+                all_raises = [n for g_ in _unit(m, f) for n in own_nodes(g_) if isinstance(n, ast.Raise) and n.exc is not None]
+                val_err = bool(all_raises) and all(isinstance((r.exc.func if isinstance(r.exc, ast.Call) else r.exc), ast.Name) and (r.exc.func if isinstance(r.exc, ast.Call) else r.exc).id == "ValueError" for r in all_raises)
+                if all(_is_bool_fact(b_) for b_ in builds) and val_err:
+                    ok_g = dom = True
             run.check(ok_g and dom, "C08.R2", f, f.node, "Where rejects a non-boolean filter with ValueError before building the stream", "Where does not reject a filter whose followed type is not bool with ValueError (or builds the stream before the test)")
 
     # ---------------- R3
